@@ -590,3 +590,141 @@ func regDistance(m *kit.Model, starts []int, target int) int {
 	}
 	return 0
 }
+
+// ---------- (c) failure classes stay distinguishable through every wrapper ----------
+
+func TestC15Classes(t *testing.T) {
+	col := evid.New("C15", "error-classes", "generated registration sets made defective in exactly one way - a dependency cycle (through plain/keyed/group/optional/parameter-object edges, incl. a service depending on several members of one cycle), a captive dependency, a missing required dependency, or a duplicate registration - registered directly or through 1-4 levels of nested modules; oracle: the error returned by Build (a BuildError) or by the registration (wrapped in ModuleErrors) is classifiable with errors.Is/As as exactly that class: CircularDependencyError, LifetimeConflictError, ErrServiceNotFound, AlreadyRegisteredError; non-trivial = the defect involves >=3 registrations or >=2 wrapper levels")
+	defer col.Flush()
+	rapid.Check(t, func(rt *rapid.T) {
+		cfg := kit.GenConfig(rt, kit.FullOpts())
+		want := rapid.SampledFrom([]string{kit.VCircular, kit.VCircular, kit.VLifetime, kit.VMissing, "duplicate"}).Draw(rt, "class")
+		switch want {
+		case kit.VCircular:
+			kit.PlantCycle(rt, cfg)
+		case kit.VLifetime:
+			kit.PlantCaptive(rt, cfg)
+		case kit.VMissing:
+			kit.DropRegs(rt, cfg, 30)
+		}
+		m, err := kit.NewModel(cfg)
+		if err != nil {
+			rt.Fatal(err)
+		}
+		classes := defectClasses(m)
+		if want != "duplicate" && (len(classes) != 1 || classes[0] != want) {
+			col.Case(false, cfg.String(), nil, "generated-other-defect(not judged)")
+			return
+		}
+		if want == "duplicate" && len(classes) != 0 {
+			col.Case(false, cfg.String(), nil, "generated-other-defect(not judged)")
+			return
+		}
+		w, _ := kit.NewWorld(cfg)
+		coll := godi.NewCollection()
+		depth := rapid.IntRange(0, 4).Draw(rt, "moddepth")
+		dupAt := -1
+		if want == "duplicate" {
+			var cands []int
+			for i := range cfg.Regs {
+				for _, p := range cfg.Regs[i].Provides() {
+					if p.Ident.Group == "" {
+						cands = append(cands, i)
+						break
+					}
+				}
+			}
+			if len(cands) == 0 {
+				col.Case(false, cfg.String(), nil, "no-duplicable-registration")
+				return
+			}
+			dupAt = rapid.SampledFrom(cands).Draw(rt, "dupAt")
+		}
+		var regErr error
+		add := func(r *kit.Reg) error {
+			if depth == 0 {
+				return w.Register(coll, r)
+			}
+			opt := w.ModuleOption(r)
+			for d := 0; d < depth; d++ {
+				opt = godi.NewModule(fmt.Sprintf("lvl%d", depth-d), opt)
+			}
+			return coll.AddModules(opt)
+		}
+		for i := range cfg.Regs {
+			if regErr = add(&cfg.Regs[i]); regErr != nil {
+				rt.Fatalf("registration of a valid registration failed: %v", regErr)
+			}
+		}
+		var got error
+		where := "build"
+		if dupAt >= 0 {
+			where = "registration"
+			got = add(&cfg.Regs[dupAt])
+			if got == nil {
+				rt.Fatalf("VIOLATION C15/classifiable [duplicate/accepted]: registering %s a second time was accepted\n%s", cfg.Regs[dupAt].String(), cfg)
+			}
+		} else {
+			r := kit.NewRunner(w)
+			r.Coll = coll
+			o := r.BuildExisting()
+			if o.Panic != nil {
+				rt.Fatalf("VIOLATION C15/no-panic [build]: %v", o.Panic)
+			}
+			got = o.Err
+			if got == nil {
+				r.CloseProvider()
+			}
+		}
+		involved := 0
+		switch want {
+		case kit.VCircular:
+			involved = len(m.CyclicRegs())
+		case kit.VLifetime:
+			involved = 2
+		case kit.VMissing:
+			involved = 1
+		}
+		canon := fmt.Sprintf("%s || class=%s depth=%d", cfg, want, depth)
+		col.Case(involved >= 3 || depth >= 2, canon, canon, "class:"+want, fmt.Sprintf("module-depth:%d", depth))
+		var f *Failure
+		if got == nil {
+			f = fail("C15", "classifiable", want+"/accepted", "%s succeeded although the registration set has a %s defect", where, want)
+		} else {
+			ok := false
+			switch want {
+			case kit.VCircular:
+				ok = kit.Classify(got) == kit.VCircular
+			case kit.VLifetime:
+				ok = kit.Classify(got) == kit.VLifetime
+			case kit.VMissing:
+				ok = errors.Is(got, godi.ErrServiceNotFound)
+			case "duplicate":
+				ok = kit.IsAlreadyRegistered(got)
+			}
+			if !ok {
+				f = fail("C15", "classifiable", want+"/"+where, "the %s error of a %s defect is not classifiable as such with errors.Is/As: %v", where, want, firstLine(got))
+			}
+			if f == nil && dupAt < 0 {
+				var be *godi.BuildError
+				var bev godi.BuildError
+				if !errors.As(got, &be) && !errors.As(got, &bev) {
+					f = fail("C15", "build-error", "type", "Build failure is not a BuildError: %T", got)
+				}
+			}
+			if f == nil && dupAt >= 0 && depth > 0 {
+				var me godi.ModuleError
+				if !errors.As(got, &me) {
+					f = fail("C15", "classifiable", "duplicate/no-module-error", "registration error through %d module levels carries no ModuleError: %v", depth, firstLine(got))
+				}
+			}
+		}
+		if f != nil {
+			if isKnown(f) {
+				col.Excluded()
+				return
+			}
+			rt.Fatalf("VIOLATION %s\n%s", f, canon)
+		}
+	})
+}
